@@ -139,7 +139,9 @@ Lemma default_params : default_p = 19 /\ default_m = 784931.
 Proof. split; reflexivity. Qed.
 
 (* literals of builder.go / gcs.go the model reads (what the source says today) *)
-Lemma builder_lits : key_size = 16%nat /\ build_p_unset = 0 /\ build_m_unset = 0 /\ coinbase_index = 0 /\ setp_max = 32.
+Lemma builder_lits : key_size = 16%nat /\ build_p_unset = 0 /\ build_m_unset = 0 /\ coinbase_index = 0 /\ setp_max = 32 /\
+  length Gen.Xgcs_builder.lits_GCSBuilder_Build = 3%nat /\ length Gen.Xgcs_builder.lits_buildBasicFilterWithKey = 3%nat /\
+  length Gen.Xgcs_builder.lits_GCSBuilder_SetP = 1%nat.
 Proof. repeat split; reflexivity. Qed.
 
 Lemma copy_key_length x : length (copy_key x) = 16%nat.
